@@ -185,6 +185,17 @@ func (u *UserHash) writeHashStr(password string, isAdmin bool, mayCreate bool) e
 	}
 	defer file.Close() //nolint:errcheck
 
+	renamed := false
+	if mayCreate {
+		// The (empty) file has just been created by us to reserve the name. Don't leave it
+		// behind if anything goes wrong before the new hash file has been moved in place.
+		defer func() {
+			if !renamed {
+				os.Remove(file.Name()) //nolint:errcheck
+			}
+		}()
+	}
+
 	tmp, err := u.store.getTempFile()
 	if err != nil {
 		return err
@@ -220,6 +231,7 @@ func (u *UserHash) writeHashStr(password string, isAdmin bool, mayCreate bool) e
 	if err := os.Rename(tmp.Name(), file.Name()); err != nil {
 		return err
 	}
+	renamed = true
 
 	// Flush the move to disk
 	dir, err := os.Open(filepath.Dir(file.Name()))
